@@ -475,7 +475,13 @@ func mcRange[M ~map[K]V, K comparable, V any](site int, m M) []mcEntry[K, V] {
 	for k := range m {
 		keys = append(keys, k)
 	}
-	sort.Slice(keys, func(i, j int) bool { return mcKeyLess(keys[i], keys[j]) })
+	if len(keys) >= 2 {
+		if ks, ok := any(keys).([]string); ok {
+			sort.Strings(ks)
+		} else {
+			sort.Slice(keys, func(i, j int) bool { return mcKeyLess(keys[i], keys[j]) })
+		}
+	}
 	out := make([]mcEntry[K, V], len(keys))
 	var perm []int
 	if h := mcHooks; h != nil && h.MapOrder != nil && len(keys) >= 2 {
